@@ -87,6 +87,13 @@ class Facts:
             self.forwarded = refforward.forward(self.raw, {caller for caller, callee in self.inlined})
             from . import normalize as _nz
             _nz.reflatten(self.raw)
+            if _os.environ.get("VERIF_NO_SROA") != "1":
+                # private structs the pinned tree does not have, held in a local and only accessed field by field
+                from . import sroa
+                pin = _nz.pinned()
+                known = set(pin["adts"]) | set(pin.get("enums", []))
+                news = {a_["path"]: a_["variants"][0]["fields"] for a_ in self.raw["adts"] if a_["kind"] == "Struct" and a_["variants"] and a_["path"] not in known and not a_["path"].startswith(("std::", "core::", "alloc::"))}
+                self.sroa = sroa.split(self.raw, {caller for caller, callee in self.inlined}, news) if news else 0
         self.bodies = [Body(b, self) for b in self.raw["bodies"]]
         self.by_path = defaultdict(list)
         for b in self.bodies:
